@@ -6,14 +6,18 @@
 (* receiver read through the build-tag-guarded hook store.VerifLayout      *)
 (* (buffer length and capacity, compaction trigger, length of the page     *)
 (* slice, number of allocated pages, minPageIndex).  The capacity Go's     *)
-(* append chooses is not part of the model: it is bound from the log.      *)
-(* Events that append several entries at once (merges, decodes) make the   *)
-(* receiver's layout untracked from then on (until it is overwritten by a  *)
-(* copy of a tracked store or the trace is reset).                         *)
+(* append chooses follows PagedImpl!GoCap (an environment model of the Go  *)
+(* runtime, checked here against every logged capacity), so that calls     *)
+(* which append many entries (AddRepeat, MergeWith, DecodeAndMergeWith of  *)
+(* a paginated store's encoding) can be followed step by step.  A receiver *)
+(* becomes untracked only where the order of the appended entries is not   *)
+(* determined (argument is a sparse store: map iteration order; protobuf   *)
+(* messages; arguments that are themselves untracked), until it is         *)
+(* overwritten by a copy of a tracked store or the trace is reset.         *)
 (***************************************************************************)
 EXTENDS PagedImpl, Json, IOUtils
 
-VARIABLES l, rt, trk
+VARIABLES l, rt, trk, good    \* good[o]: am[o] is the slot's real content (no collapsing store contributed to it)
 
 Trace == ndJsonDeserialize(IOEnv.VERIF_TRACE)
 TSlots == 1..4
@@ -23,6 +27,7 @@ TraceInit ==
   /\ am = [o \in TSlots |-> EmptyMap]
   /\ rt = [o \in TSlots |-> "x"]
   /\ trk = [o \in TSlots |-> FALSE]
+  /\ good = [o \in TSlots |-> FALSE]
   /\ l = 1
 
 Recv(e) == IF e.op \in {"Merge", "EncDec", "Proto", "CopyTo"} THEN e.t ELSE e.s
@@ -38,8 +43,29 @@ AbsApply(A, e) ==
 \* the driver projects the receiver (and the argument) after every call: ForEach / KeyAtRank sort the buffer in place
 Observe(P, S) == [o \in TSlots |-> IF o \in S THEN SortBuffer(P[o]) ELSE P[o]]
 
+\* kinds whose ForEach visits bins in ascending index order (fallback MergeWith = AddWithCount per bin in that order)
+Ordered(k) == k = "dense"
+Collapsing(k) == k \in {"low", "high"}
+
+\* can the receiver of e still be followed exactly?
+Followable(e) ==
+  CASE e.op = "AddRepeat" -> TRUE
+    [] e.op = "Merge"  -> (rt[e.s] = "paged" /\ trk[e.s]) \/ (Ordered(rt[e.s]) /\ good[e.s])
+    [] e.op = "EncDec" -> rt[e.s] = "paged" /\ trk[e.s]
+    [] e.op = "Proto"  -> FALSE
+    [] OTHER -> TRUE
+
+RepeatAdd(p, i, n) ==
+  LET F[k \in 0..n] == IF k = 0 THEN p ELSE ImplAdd1(F[k - 1], i, Unit, GO) IN F[n]
+
 ImplApply(P, e) ==
-  CASE e.op \in {"Add", "AddWithCount", "AddBin"} -> [P EXCEPT ![e.s] = ImplAddW(P[e.s], e.i, e.w, Unit, e.lay.bcap)]
+  CASE e.op \in {"Add", "AddWithCount", "AddBin"} -> [P EXCEPT ![e.s] = ImplAddW(P[e.s], e.i, e.w, Unit, GO)]
+    [] e.op = "AddRepeat" -> [P EXCEPT ![e.s] = RepeatAdd(P[e.s], e.i, e.num)]
+    [] e.op = "Merge" /\ rt[e.t] = "paged" /\ trk[e.t] /\ Followable(e) ->
+         IF rt[e.s] = "paged" THEN [P EXCEPT ![e.t] = ImplMergeSame(P[e.t], P[e.s], Unit, GO)]
+         ELSE [P EXCEPT ![e.t] = ImplMergeBins(P[e.t], am[e.s], Unit, GO)]
+    [] e.op = "EncDec" /\ rt[e.t] = "paged" /\ trk[e.t] /\ Followable(e) ->
+         LET src == Compact(P[e.s]) IN [P EXCEPT ![e.s] = src, ![e.t] = ImplDecodeSame(P[e.t], src, GO)]
     [] e.op = "CopyTo" -> [P EXCEPT ![e.t] = ImplCopy(P[e.s])]
     [] e.op = "Clear"  -> [P EXCEPT ![e.s] = ImplClear(P[e.s])]
     [] e.op = "Reweight" -> [P EXCEPT ![e.s] = ImplReweight(P[e.s], e.num, e.den, Unit)]
@@ -55,12 +81,18 @@ TraceNext ==
             /\ am' = [o \in TSlots |-> EmptyMap]
             /\ rt' = [o \in TSlots |-> e.real[o]]
             /\ trk' = [o \in TSlots |-> e.real[o] = "paged"]
+            /\ good' = [o \in TSlots |-> ~Collapsing(e.real[o])]
        ELSE /\ am' = AbsApply(am, e)
             /\ pg' = Observe(ImplApply(pg, e), {Recv(e)} \cup (IF e.t # 0 THEN {e.s} ELSE {}))
             /\ rt' = IF e.op = "CopyTo" THEN [rt EXCEPT ![e.t] = rt[e.s]] ELSE rt
+            /\ good' = CASE e.op = "CopyTo" -> [good EXCEPT ![e.t] = good[e.s]]
+                         [] e.op \in {"Merge", "EncDec", "Proto"} -> [good EXCEPT ![e.t] = good[e.t] /\ good[e.s]]
+                         [] e.op = "Clear" -> [good EXCEPT ![e.s] = ~Collapsing(rt[e.s])]
+                         [] OTHER -> good
             /\ trk' = CASE e.op = "CopyTo" -> [trk EXCEPT ![e.t] = trk[e.s]]
                         \* (Clear keeps capacity, trigger and the page slice: an untracked store stays untracked)
-                        [] e.op \in {"Merge", "EncDec", "Proto", "AddRepeat"} -> [trk EXCEPT ![Recv(e)] = FALSE]
+                        [] e.op \in {"Merge", "EncDec", "Proto", "AddRepeat"} ->
+                             [trk EXCEPT ![Recv(e)] = trk[Recv(e)] /\ Followable(e)]
                         [] OTHER -> trk
   /\ l' = l + 1
 
